@@ -92,6 +92,21 @@ std::vector<Base> make_bases(Ctx &cx, bool all) {
     if (!e.ret) cx.rep.count("genuine_files_taken_from_the_reference_because_encrypt_reported_failure");
     out.push_back(b);
   }
+  // always present: highly repetitive plaintext (zero-filled / one repeated block) in ECB, where consecutive cipher
+  // blocks - and therefore consecutive 64-byte units of the authenticated stream - repeat
+  for (int rp = 0; rp < 3; rp++) {
+    vh::Rng r(vh::mix(cx.seed, 0x2E9E47 + rp));
+    Base b;
+    b.ep.cmode = 0; b.ep.hmode = (rp + 2) % 3; b.ep.T = Ts[rp];
+    r.fill(b.ep.key, 16);
+    b.ep.seed = ops::gen_seed(r);
+    b.n = 6 * c + 9;
+    b.pseed = r.next();
+    b.P = ops::gen_plain(b.n, b.pseed, rp == 0 ? 1 : 3);
+    ops::Result e = ops::encrypt(b.P, b.ep);
+    b.F = e.ret ? e.out : genuine_from_reference(b);
+    out.push_back(b);
+  }
   // always present: keys with special shapes (zero bytes at various positions, the project's own test key)
   for (int ks = 0; ks < 5; ks++) {
     vh::Rng r(vh::mix(cx.seed, 0x4E750 + ks));
